@@ -48,6 +48,45 @@ NEEDS = {
     "C19-B": "worker dies with a POSITIVE exit status (os._exit(1..)): monitor only reacts to negative codes",
     "C20-A": "truncation inside the last ~13 bytes (zip archive comment appended by save())",
     "C20-B": "save() onto a path that already holds a longer file (no O_TRUNC)",
+    "C01-2A": "one-entry read memo in CountMinLinear.query not reset by merge(): read k, merge a sketch holding k, read k again with no other read in between",
+    "C01-2B": "class-level save() checkpoint (filename, n_added): two sketches saved to one path; the second save of the first is skipped",
+    "C02-2A": "query() cache not cleared by merge(): query, merge, query again",
+    "C02-2B": "leading zeros via float log2: a run of >= 49 one-bits below the leading zeros (crafted key)",
+    "C03-2A": "candidate set extended (Counter.update ADDS) when the threshold is lowered with nothing added in between; depth >= 2 and unequal row counts",
+    "C03-2B": "class-level shared candidate_set Counter: two live sketches, X queried, Y scanned, X (or an empty sketch) queried again",
+    "C04-2A": "class-level shared candidate_set Counter (two cooperating sites): another sketch regenerates between two identical queries of this one",
+    "C04-2B": "sorted-list memo ignores k: query(small k) then query(larger k) with the same threshold",
+    "C05-2A": "running-product probability in _log_counter: a bulk add crossing num_reserved with a draw within 1e-15 of 1",
+    "C05-2B": "fast path tests counter + uint16(value): a bulk add with value >= 65536 whose low 16 bits are small",
+    "C06-2A": "_log_counter value narrowed to uint32: one bulk add with value >= 2^32 on a log sketch",
+    "C06-2B": "random batch hoisted to module scope: two live log sketches share (and re-consume) one batch",
+    "C07-2A": "query() cache that update() does not invalidate: query, update(new keys), query",
+    "C07-2B": "shared-memory block rounded up to a page: p <= 11, shared_memory=True, beyond the linear-counting regime",
+    "C08-2A": "stale n_recs when the callback raises on a worker that already completed an item",
+    "C08-2B": "merge processes capped at the physical core count: n_workers >= 2*cores+2 (core count is an environment answer)",
+    "C09-2A": "class-level decode table keyed by (max_count, num_reserved) without the counter width: log16 and log8 with the same pair merged in one process",
+    "C09-2B": "column-blocked parallel merge with floor division: log merge of width > 4096 and not a multiple of 4096",
+    "C10-2A": "load() snaps a phi np.isclose() to 1/width to the default",
+    "C10-2B": "query cache reused for any higher threshold: original and loaded copy in different cache states, explicit threshold first",
+    "C11-2A": "fasthash32 seed narrowed to uint32: seeds >= 2^32",
+    "C11-2B": "murmur3 tail loop reads one byte past a jit-created slice view",
+    "C12-2A": "log8 add_ngram whole-key branch drops the advanced cursor",
+    "C12-2B": "log add stops counting n_added once saturated: add(k, v) crossing the ceiling vs v single adds (small max_count)",
+    "C13-2A": "pruning on a raised threshold without recording it: thresholds low, high, in-between with no add in between",
+    "C13-2B": "class-level shared candidate_set Counter: two live sketches / an empty sketch queried after another",
+    "C14-2A": "one hash rotated by 8 bits per row: widths sharing a factor with 2^64-1 (3, 5, 17, ...), e.g. 48, 51, 85",
+    "C15-2A": "heavy hitters compared by raw args (incl. phi; None vs loaded 1/width)",
+    "C15-2B": "log merge compares the float base instead of max_count: neighbouring max_counts >= 2^53 (log16: >= 2^40)",
+    "C16-2A": "log16 merge fast path into an empty sketch rebinds the arrays to private copies (shared owner / view detached)",
+    "C16-2B": "per-object 'modified' flag instead of the shared n_added stamp: handle X queries, handle Y writes, X queries again",
+    "C17-2A": "query() memoised on the SUM of the registers: two states with equal sums queried back to back on one object",
+    "C17-2B": "query() cached behind a per-object dirty flag: registers replaced in place on an already queried object",
+    "C18-2A": "module-level base cache keyed without the counter width: log16 and log8 built with the same explicit (max_count, num_reserved) in one process",
+    "C18-2B": "heavy-hitter add without the 2^32-1 clamp: value > 2^32-1 for a key that does not own its cell wraps",
+    "C19-2A": "monitor loop tests 'any still running' before inspecting exit codes: the LAST running worker dies",
+    "C19-2B": "the fill process is no longer killed: worker dies while the filler is blocked on the full queue (more entries than 3*n_workers)",
+    "C20-2A": "HeavyHitters.load rewrites a non-.npz suffix: truncated file named X.part next to the complete X.npz",
+    "C20-2B": "lru_cache in module-level load(): a path loaded successfully, then truncated in place, then loaded again",
 }
 
 
@@ -58,7 +97,21 @@ def load(path):
         return None
 
 
+def r2_baseline():
+    """Exit codes of the round-2 changes against the PREVIOUS version of the checks."""
+    out = {}
+    for f in ("r2_before.log", "r2_before_b2.log"):
+        p = os.path.join(VERIF_DIR, "seeded", f)
+        if os.path.exists(p):
+            for line in open(p):
+                m = re.match(r"(C\d+-2[AB]) (C\d+) exit=(\d+)", line)
+                if m:
+                    out[m.group(1)] = int(m.group(3))
+    return out
+
+
 def main():
+    base2 = r2_baseline()
     root = os.path.join(VERIF_DIR, "seeded")
     rows = []
     for name in sorted(os.listdir(root)):
@@ -98,6 +151,10 @@ def main():
         others = ", ".join(f"{k}:{'yes' if v['exit'] == 1 else 'no' if v['exit'] == 0 else 'err'}"
                            for k, v in det.items() if k != prop)
         b = before.get(prop, {}).get("exit")
+        if name in base2:
+            b = base2[name]
+            meta["detection_quick_before_strengthening"] = {prop: b}
+            json.dump(meta, open(os.path.join(d, "meta.json"), "w"), indent=1)
         first = "" if b is None or b == own else {0: "missed", 2: "exit 2"}.get(b, str(b)) + " at first"
         rows.append(f"| {name} | {NEEDS.get(name, '')} | {tests} | "
                     f"{'**yes**' if own == 1 else 'NO' if own == 0 else 'exit ' + str(own)} | {others} | {first} |")
